@@ -32,7 +32,7 @@ ASSUMPTIONS = [
     "extents other than the listed assignments are represented only through the vector-width classes (scalar / 128-bit / 256-bit) they fall in",
 ]
 TYPES_Q = ["f64", "f32", "i32"]
-SSE_W = {"f64": 2, "f32": 4, "i32": 4, "i64": 2, "c64": 1, "c32": 2}
+SSE_W = {"f64": 2, "f32": 4, "i32": 4, "i64": 2, "c64": 2, "c32": 4}   # complex SIMD vectors keep real and imaginary parts in two registers
 E_EINSUM, E_CONTRACTION, E_EXPLICIT, E_INNER, E_OUTER = 0, 1, 2, 3, 4
 
 
